@@ -70,6 +70,15 @@ REQUIRED = [
     ("uncle ok", lambda p: p["fam"] == "uncle_single" and p["verdict"] == "accept"),
     ("two uncles ok", lambda p: p["fam"] == "uncle_pair" and p["verdict"] == "accept"),
     ("uncle whose parent is an embedded uncle", lambda p: p["fam"] in ("uncle_single", "uncle_pair") and p["verdict"] == "accept" and p.get("deep_uncle")),
+    ("embedded parent one block lower (valid)", lambda p: p["fam"] == "uncle_descent_number" and p["lab"] in ("same-block/par=num-1", "fab-same-block/par=num-1") and p["verdict"] == "accept"),
+    ("embedded parent two blocks lower", lambda p: p["lab"] in ("same-block/par=num-2", "fab-same-block/par=num-2") and p["rules"] == ["uncle_descent"]),
+    ("embedded parent at the same number", lambda p: p["lab"] in ("same-block/par=num", "fab-same-block/par=num") and p["rules"] == ["uncle_descent"]),
+    ("child of an uncle that is not embedded", lambda p: p["lab"] == "fab-child-alone" and p["rules"] == ["uncle_descent"]),
+    ("ancestor parent one block lower (valid)", lambda p: p["lab"] == "main/par=num-1" and p["verdict"] == "accept"),
+    ("ancestor parent two blocks lower", lambda p: p["lab"] == "main/par=num-2" and p["rules"] == ["uncle_descent"]),
+    ("ancestor parent at the same number", lambda p: p["lab"] == "main/par=num" and p["rules"] == ["uncle_descent"]),
+    ("parent embedded by an ancestor, one block lower (valid)", lambda p: p["lab"] == "anc-embedded/par=num-1" and p["verdict"] == "accept"),
+    ("parent embedded by an ancestor, wrong distance", lambda p: p["lab"] in ("anc-embedded/par=num", "anc-embedded/par=num-2") and p["rules"] == ["uncle_descent"]),
     ("uncles = max", lambda p: p["fam"] == "uncle_count" and p["lab"] == "max" and p["verdict"] == "accept"),
     ("uncles = max+1", lambda p: p["rules"] == ["uncle_count"]),
     ("uncle of another epoch", lambda p: p["rules"] == ["uncle_epoch"]),
